@@ -1,10 +1,10 @@
 SPECIFICATION Spec
 CONSTANTS
   DataFields = {"a", "b"}
-  Vals = {"s:x", "i:7", "b:true"}
+  Vals = {"s:x", "i:7"}
   DelimVals = {}
   MaxSpans = 3
-  CfgNames = {"ab"}
+  CfgNames = {"ab", "a_rb", "ab_ra"}
   Samplers = {"dynamic", "emadynamic", "emathroughput", "windowedthroughput", "totalthroughput"}
 INVARIANTS TypeOK NFSound PermutationInvariant DuplicationInvariant IrrelevantCellsInvariant PairsDistinct OutConsistent
 CHECK_DEADLOCK FALSE
